@@ -15,6 +15,10 @@ VERIF = os.path.dirname(os.path.dirname(os.path.abspath(__file__)))
 props = [c["property_id"] for c in json.load(open(os.path.join(VERIF, "MANIFEST.json")))["checks"]]
 patches = sorted(glob.glob(os.path.join(VERIF, "benign", "*.patch")))
 args = sys.argv[1:]
+if "--dir" in args:       # candidates not (yet) in the corpus: every *.diff of a directory
+    _i = args.index("--dir")
+    patches = sorted(glob.glob(os.path.join(args[_i + 1], "*.diff")))
+    del args[_i:_i + 2]
 if "--jobs" in args:
     _i = args.index("--jobs")
     del args[_i:_i + 2]
@@ -58,7 +62,8 @@ def one(patch):
 bad = 0
 with concurrent.futures.ThreadPoolExecutor(jobs) as ex:
     for patch, res in ex.map(one, patches):
-        print("%-34s %s" % (os.path.basename(patch), "SILENT" if not res else "ALARM: " + " | ".join(res)), flush=True)
+        print("%-34s %s" % (os.path.basename(os.path.dirname(patch))[:14] + "/" + os.path.basename(patch) if patch.endswith(".diff")
+                            else os.path.basename(patch), "SILENT" if not res else "ALARM: " + " | ".join(res)), flush=True)
         bad += 1 if res else 0
 print("%d benign refactorings, %d raised an alarm or broke a check" % (len(patches), bad))
 sys.exit(1 if bad else 0)
